@@ -489,6 +489,9 @@ def getBH_dict_level2(
 
     # pylint: disable=import-outside-toplevel
 
+    if orientation is None:  # documented: `None` corresponds to a unit rotation
+        orientation = R.identity()
+
     try:
         source_classes = get_registered_sources()
         field_func = source_classes[source_type]._field_func
